@@ -5,6 +5,30 @@ from . import cs_conc
 ALLOC_RUN = {"harness": "halloc", "driver": "allocdrv", "fields": None, "corpus": "conc-alloc",
              "quick": {"n": 400, "shards": 12}, "thorough": {"n": 3000, "shards": 32}}
 
+def search_c05(sc, pid, spec, tier, seed, known):
+    """Failing-input search for C05 (only runs when a proof obligation, the correspondence or a
+    critical-section predicate already broke and no failing input was found): hammer cases — N goroutines
+    calling Execute while another one calls Close, free running — repeated with fresh seeds until the log
+    oracle reports a violation or the time budget is used up."""
+    import time
+    from . import core
+    from .runner import _oracle_name, _belongs, _match_known
+    budget = 240 if tier == "thorough" else 75
+    t0 = time.time()
+    rnd = 0
+    while time.time() - t0 < budget:
+        rnd += 1
+        r = core.diff_run(sc, "hjobq", "jobqdrv", ["-n", "150", "-tier", "hammer"], 8, seed * 131 + 50000 + rnd, fields=None)
+        for o in r.oracle_failures:
+            for rep in o["reports"]:
+                name = _oracle_name(rep)
+                if _belongs(pid, name, spec) and not _match_known(pid, name, rep, known):
+                    return {"property": pid, "kind": "direct-oracle", "oracle": name, "report": rep,
+                            "found_by": "hammer search, round %d" % rnd, "harness": "hjobq", "driver": "jobqdrv",
+                            "ops": o["ops"], "impl": o["impl"], "seed": seed * 131 + 50000 + rnd}
+    return None
+
+
 JOBQ_RUN = {"harness": "hjobq", "driver": "jobqdrv", "fields": None, "corpus": "conc-jobq",
             "quick": {"n": 250, "shards": 12}, "thorough": {"n": 2500, "shards": 32}}
 
@@ -27,7 +51,8 @@ PROPS = {
             "technique": "Lean 4 proof (inductive invariant of a transition system) + schedule replay / differential correspondence"},
         "lean": ["NbioVerif.Properties.C05"], "drivers": ["jobqdrv"], "harness": ["hjobq"],
         "runs": [JOBQ_RUN],
-        "cs": [cs_conc.cs_conn_submit, cs_conc.cs_conn_drainer, cs_conc.cs_nbhttp_close_routed],
+        "cs": [cs_conc.cs_conn_submit, cs_conc.cs_conn_drainer, cs_conc.cs_conn_close_flip, cs_conc.cs_nbhttp_close_routed],
+        "search": search_c05,
         "oracles": ["c05-"],
         "rule": "case = (executor kind, #conns, schedule of submit / spawn / finish(panic) / close / burst ops); distinct by hash of "
                 "(config, per-op kind, conn, must, nested, closed, panic); non-trivial iff a job finished or a burst ran",
